@@ -254,6 +254,9 @@ int handle_read(struct snapraid_handle* handle, block_off_t file_pos, unsigned c
 			out_missing("Reading data from missing file '%s' at offset %" PRIu64 ".\n", handle->path, offset);
 		else
 			out("Reading missing data from file '%s' at offset %" PRIu64 ".\n", handle->path, offset);
+
+		/* it's not an input/output error, ensure to not return a stale errno */
+		errno = ENOENT;
 		return -1;
 	}
 
@@ -272,6 +275,8 @@ int handle_read(struct snapraid_handle* handle, block_off_t file_pos, unsigned c
 			/* LCOV_EXCL_STOP */
 		}
 		if (read_ret == 0) {
+			/* it's not an input/output error, ensure to not return a stale errno */
+			errno = ENOENT;
 			out("Unexpected end of file '%s' at offset %" PRIu64 ". %s.\n", handle->path, offset, strerror(errno));
 			return -1;
 		}
